@@ -23,7 +23,7 @@ func init() {
 		LevelNote: "Trusted: go/ssa, the taint closure (does not follow heap fields), github.com/golang/protobuf Unmarshal being total, the prover's arithmetic (difference constraints over dominating branch conditions; integer overflow not modelled).",
 		DesignRef: "DESIGN.md §4 C14",
 		Explanation: "R14.1 bounds on untrusted bytes (taint closure from nats.Msg.Data, all module functions reached), R14.2 marshal/unmarshal table agreement per msgType and header layout agreement, R14.3 CRC guard, R14.4 raw passthrough / envelope copy in natsToProtoMessage, R14.5 optional sub-messages of propagated requests are nil-checked before dereference. R14.5 also covers messages nested in an optional sub-message; R14.6 the malformed-message-set sentinel arrives unwrapped at handleReplicationResponse's identity test; R14.7 every panic in a NATS callback or ack-marshalling function is one of six listed ones that a sender cannot cause. R14.9 the message built for a raw (non-envelope) payload waives the expected offset (Offset = -1), so a stream with optimistic concurrency control stores it like any other; R14.4's field copies are demanded on the envelope branch and only constants elsewhere. " +
-			"NOT decided: protobuf decoding itself, semantic validity of decoded values, resource exhaustion, round-trip equality as a value property.",
+			"R14.5 also: the CREATE_STREAM precondition keys on the stream's own name, partitions naming another stream and repeated partition ids are refused before anything is proposed (F69); R14.10 every publish on the acks connection is behind a whitespace test of its subject (F70); R14.11 stored subjects reach proto3 string fields through ToValidUTF8 (F71); R14.12 entriesForMessageSet admits an entry only for a message that passed valid(), and valid() itself is in the bounds prover's closure (F75). NOT decided: protobuf decoding itself, semantic validity of decoded values, resource exhaustion, round-trip equality as a value property.",
 	})
 }
 
@@ -429,6 +429,16 @@ func runC14(c *eng.Ctx) {
 	// ---- R14.7 what arrives over NATS cannot reach a panic
 	c.Rule("R14.7", "K3")
 	rulePanicsOnMessagePath(c)
+
+	c.Rule("R14.5", "K9")
+	ruleCreatePreconditionKeysOnTheStreamName(c)
+	ruleCreateRequestIsConsistent(c)
+	c.Rule("R14.10", "K1")
+	ruleAckInboxIsASubject(c)
+	c.Rule("R14.12", "K1")
+	ruleReplicatedMessagesAreValidated(c)
+	c.Rule("R14.11", "K5")
+	ruleDeliveredStringsAreUTF8(c)
 
 	// ---- R02.3 (shared clause) a replication response reaches the log only when it is longer than a message-set header:
 	// a bare 28-byte header announcing size 0 would be indexed as a message, and the first reader of that offset fails
